@@ -5,7 +5,8 @@ META = {
     "level": "other",
     "structural": "Deductive (unbounded): simplifier.simplify_inv_subs is verified from its AST for chains of any length over an abstract monoid of parameter maps: the "
                   "conditional fold of the kept entries equals the composition of the original chain, only entries listed in all_dup (self-inverse by precondition) are "
-                  "deleted, so 'nan' is never deleted, and the result is None exactly when nothing is kept; the three template families of get_all_dup are proved to be involutions.",
+                  "deleted, so 'nan' is never deleted, and the result is None exactly when nothing is kept; the three template families of get_all_dup are proved to be involutions, and a "
+                  "structural obligation on get_all_dup's AST shows that every entry it lists, for every max_param, is an instance of one of them (an entry of another shape, e.g. a 3-cycle, fails it).",
     "text": "Bounded, on the real code. Round trip: every substitution template the simplifier can record for up to 4 parameters (all rows of the "
             "pairwise-combination table with both targets, the constant-absorption inverses for integers -3..3 and six other numbers, sign flips, "
             "reciprocals, swaps in both key orders, permutations, reorderings, and the 'nan' marker: 482 written strings, built with the writer's "
@@ -19,7 +20,7 @@ META = {
             "against sympy) unchanged at two generic points, 'nan' never deleted, None iff nothing kept, kept entries a subsequence; every "
             "get_all_dup entry is an involution and both key orders of each swap are listed. Both oracles are tested with a canary.",
     "note": "Bounded by the template set (<= 4 parameters, listed numbers), chain length and 4 ranks on the MPI stand-in; values are compared "
-            "numerically (1e-9 relative), not symbolically. The deductive treatment of simplify_inv_subs planned in DESIGN.md is not part of this check.",
+            "numerically (1e-9 relative), not symbolically.",
     "technique": "contract-based deductive verification of the canceller (AST->VC->SMT, ghost fold) + exhaustive enumeration of templates/chains on the real reader and canceller, numeric function comparison with mpmath, multi-process MPI stand-in",
 }
 CHECKER = "./bin/check C17 (harness/rt_c17.py: load_subs on forked ranks, simplify_inv_subs over all chains)"
@@ -37,9 +38,12 @@ def check(run):
     if dst != "unsupported" and D.canary(run, "generation/simplifier.py", "simplify_inv_subs", c_simplifier.simplify_inv_subs_contract) is False:
         raise RuntimeError("canary verified: engine vacuous on simplify_inv_subs")
     D.prove_lemmas(run, "get_all_dup templates are involutions", c_simplifier.involution_lemmas())
+    from pyvc import templates
+    tfailed = D.structural_generic(run, ["generation/simplifier.py"], templates.obligations, "pyvc.templates (AST analysis)",
+                                   "every entry get_all_dup lists is an instance of one of the three templates proved self-inverse (for every max_param)")
     run.assume("lemma library (assumed): the fold of a filtered list equals the conditional fold of the list (fusion), uniqueness of the conditional fold",
                "parameter maps form a monoid under composition (associative, identity); strings are abstract tokens denoting maps",
-               "precondition of simplify_inv_subs: every element of all_dup is self-inverse (get_all_dup: three involution lemmas proved, enumeration bounded)")
+               "precondition of simplify_inv_subs: every element of all_dup is self-inverse -- discharged for get_all_dup: structural obligation (every listed entry is an instance of a template) + three involution lemmas")
     run.trust("pyvc", "z3 5.1.0")
     quick = run.tier == "quick"
     allP = [1, 2, 3, 4]
@@ -116,6 +120,7 @@ def check(run):
     if dfailed and not run.violations:
         from checks.C14 import report_unproved
         report_unproved(run, dfailed, False, "simplifier.simplify_inv_subs")
+    D.report_structural(run, tfailed, "templates", "pyvc/templates.py")
     return run.finish("other", META["text"], CHECKER,
                       rule="round trip: cases = rows read back and compared (a row is re-counted for each rank count and reader mode), distinct = "
                            "different written chains; cancellation: cases = chains enumerated (+ involution/listing checks), distinct = chains with at least one cancelled pair")
